@@ -11,6 +11,7 @@ from harness.lib import VERIF
 from harness.c05 import build as bd
 from harness.c05 import engine as en
 from harness.c05 import gen as gn
+from harness.c05 import more as mr
 
 ID = "C05"
 COQ_PROP = "props/C05.v"
@@ -102,20 +103,26 @@ def corpus():
         c = g.malformed(k)
         c["cls"] = "SQLLiteQuery" if k != 4 else "Query"
         out.append(c)
-    return _corpus_files() + out
+    return _corpus_files() + out + mr.triples() + mr.fork_witnesses() + mr.corr_witnesses()
 
 
 def gen_cases(rng, tier):
     n = 1500 if tier == "quick" else 30000
     g = gn.G(rng)
+    fg = mr.FG(rng, hazards=0.0)
     qg = qf.QGen(rng, p_alias=0.1, p_subq=0.0, hostile=0.3)
     out = []
     for _ in range(n):
-        if rng.random() < 0.2:
+        x = rng.random()
+        if x < 0.15:
             cls = rng.choice(qf.CLS_NAMES)
             k = rng.random()
             spec = qg.insert(cls) if k < 0.5 else (qg.update(cls) if k < 0.8 else qg.delete(cls))
             out.append({"kind": "q", "spec": spec})
+        elif x < 0.30:
+            out.append(fg.fork())
+        elif x < 0.38:
+            out.append(mr.corr_case(rng, fg))
         else:
             out.append(g.any_b())
     return out
@@ -125,29 +132,54 @@ def gen_cases(rng, tier):
 # implementation
 # ----------------------------------------------------------------------------------------------
 def judged(case):
-    return case["kind"] == "b" and case.get("spec") is not None and case["cls"] in gn.JUDGED
+    if case["kind"] == "b":
+        return case.get("spec") is not None and case["cls"] in gn.JUDGED
+    return case["kind"] in ("f", "c") and case["cls"] in gn.JUDGED
+
+
+def _engine(out, spec, db):
+    """engine verdict for one observed statement (out: dump/text or exception names) against its specification"""
+    if "text" in out and out["text"]:
+        try:
+            return en.differential(out["text"], spec, db)
+        except Exception as e:  # noqa  (harness trouble must not look like a pass)
+            return {"verdict": "harness-error", "why": "%s: %s" % (type(e).__name__, e)}
+    if "build_exc" in out or "text_exc" in out:
+        return {"verdict": "exception", "error": out.get("build_exc") or out.get("text_exc")}
+    return {"verdict": "empty-text"}
 
 
 def run_impl(case):
     if case["kind"] == "q":
         return {"text": qf.render_impl(case["spec"])}
+    if case["kind"] == "c":
+        out = mr.run_c(case)
+        if judged(case):
+            o = {"text": out["text"]} if not out["text"].startswith("!") else {"text_exc": out["text"][1:]}
+            out["engine"] = _engine(o, mr.corr_spec(case), case.get("db", 0))
+        return out
+    if case["kind"] == "f":
+        out = bd.run_f(case)
+        if judged(case) and "branches" in out:
+            for o, spec in zip(out["branches"], case["specs"]):
+                if spec is not None:
+                    o["engine"] = _engine(o, spec, case.get("db", 0))
+        return out
     out = bd.run_b(case)
     if judged(case):
-        if "text" in out and out["text"]:
-            try:
-                out["engine"] = en.differential(out["text"], case["spec"], case.get("db", 0))
-            except Exception as e:  # noqa  (harness trouble must not look like a pass)
-                out["engine"] = {"verdict": "harness-error", "why": "%s: %s" % (type(e).__name__, e)}
-        elif "build_exc" in out or "text_exc" in out:
-            out["engine"] = {"verdict": "exception", "error": out.get("build_exc") or out.get("text_exc")}
-        else:
-            out["engine"] = {"verdict": "empty-text"}
+        out["engine"] = _engine(out, case["spec"], case.get("db", 0))
     return out
 
 
 def to_coq(case, outcome):
     if case["kind"] == "q":
         return bd.coq_q(case, outcome)
+    if case["kind"] == "c":
+        return mr.coq_c(case, outcome)
+    if case["kind"] == "f":
+        if not bd.modelled({"calls": case["prefix"] + [c for b in case["branches"] for c in b]}):
+            return None
+        return bd.coq_f(case, outcome)
     if not bd.modelled(case):
         return None
     return bd.coq_b(case, outcome)
@@ -194,8 +226,7 @@ def hazard(t):
     return None
 
 
-def construct(case):
-    spec = case["spec"]
+def construct(spec, calls):
     k = spec["kind"]
     if k == "update":
         for _, v in spec["sets"]:
@@ -203,8 +234,12 @@ def construct(case):
                 return "set-expression:" + hazard(v[1])
     if spec.get("where") is not None and hazard(spec["where"]):
         return "where:" + hazard(spec["where"])
+    if spec.get("where_item") is not None:
+        return "where:correlated-subquery"
     if k == "insert":
-        ins = [c for c in case["calls"] if c[0] in ("insert", "replace", "ior") and c[1]]
+        ins = [c for c in calls if c[0] in ("insert", "replace", "ior") and c[1]]
+        if any(v[0] == "t" for row in spec["rows"] for v in row):
+            return "value-expression"
         if len(ins) > 1:
             return "chained"
         if len(spec["rows"]) > 1:
@@ -219,31 +254,47 @@ def construct(case):
     return "where" if spec.get("where") is not None else "no-where"
 
 
-def stmt_kind(case):
-    spec = case["spec"]
+def stmt_kind(spec):
     if spec["kind"] == "insert":
         return {"insert": "insert", "replace": "replace", "ior": "insert-or-replace"}[spec["mode"]]
     return spec["kind"]
 
 
-def oracle(case, outcome):
-    if not judged(case):
-        return []
-    e = outcome.get("engine") or {}
+def _verdict(e, spec, calls, cls, text, prefix=""):
     v = e.get("verdict")
     if v in ("same", "not-judged", None):
         return []
-    if v == "empty-text":
-        # a specification with at least one row / SET pair / a DELETE must render
-        what = "empty-text"
-    elif v == "exception":
+    if v == "exception":
         what = "exception:" + str(e.get("error"))
     else:
-        what = v
+        what = v          # rejected | state-differs | reference-rejected | empty-text | harness-error
     detail = {k: e[k] for k in ("error", "table", "got", "expected", "reference", "why") if k in e}
-    return [{"signature": ["C05", stmt_kind(case), construct(case), what],
+    return [{"signature": ["C05", stmt_kind(spec), prefix + construct(spec, calls), what],
              "what": "%s on %s: pypika text %r vs reference effect %r: %s" % (
-                 what, case["cls"], outcome.get("text"), e.get("reference"), json.dumps(detail, default=str)[:600])}]
+                 what, cls, text, e.get("reference"), json.dumps(detail, default=str)[:600])}]
+
+
+def oracle(case, outcome):
+    if not judged(case):
+        return []
+    if case["kind"] == "b":
+        return _verdict(outcome.get("engine") or {}, case["spec"], case["calls"], case["cls"], outcome.get("text"))
+    if case["kind"] == "c":
+        return _verdict(outcome.get("engine") or {}, mr.corr_spec(case), [], case["cls"], outcome.get("text"))
+    # fork: every derived statement against ITS OWN specification, and the kept prefix must still be what it was
+    out = []
+    kind = {"into": "insert", "update": "update", "delete": "delete"}[case["start"][0]]
+    if "build_exc" in outcome:
+        return [{"signature": ["C05", kind, "fork:prefix", "exception:" + outcome["build_exc"]],
+                 "what": "the prefix %r raised %s" % (case["prefix"], outcome["build_exc"])}]
+    for br, o, spec in zip(case["branches"], outcome["branches"], case["specs"]):
+        if spec is not None:
+            out += _verdict(o.get("engine") or {}, spec, case["prefix"] + br, case["cls"], o.get("text"), prefix="fork:")
+    if outcome["after"] != outcome["before"]:
+        out.append({"signature": ["C05", kind, "fork:prefix", "changed-by-derived-statement"],
+                    "what": "the kept prefix rendered %r with state %r before the derived statements were built and %r / %r afterwards"
+                            % (outcome["before"].get("text"), outcome["before"].get("dump"), outcome["after"].get("text"), outcome["after"].get("dump"))})
+    return out[:3]
 
 
 # ----------------------------------------------------------------------------------------------
@@ -252,6 +303,8 @@ def oracle(case, outcome):
 def nontrivial_key(case):
     if not judged(case):
         return None
+    if case["kind"] in ("f", "c"):
+        return json.dumps(case, sort_keys=True)
     spec = case["spec"]
     size = len(spec.get("rows", [])) + len(spec.get("sets", [])) + (1 if spec.get("where") is not None else 0)
     if len(case["calls"]) >= 2 or size >= 2:
@@ -269,6 +322,20 @@ def histogram(cases):
             inc("q:" + c["spec"]["k"])
             inc("cls=" + c["spec"]["cls"])
             continue
+        if c["kind"] == "c":
+            inc("cls=" + c["cls"])
+            inc("correlated:%s:%s" % (c["stmt"], c["form"]))
+            inc("correlated:inner-wheres=%d" % len(c["inner_wheres"]))
+            continue
+        if c["kind"] == "f":
+            inc("cls=" + c["cls"])
+            inc("fork:" + c["start"][0])
+            inc("fork:branches=%d" % len(c["branches"]))
+            for call in c["prefix"] + [x for b in c["branches"] for x in b]:
+                inc("fork-call:" + call[0])
+            continue
+        if c.get("tag"):
+            inc(c["tag"].rsplit(":", 1)[0])
         inc("cls=" + c["cls"])
         inc("b:" + (c["spec"]["kind"] if c.get("spec") else "malformed"))
         inc("calls=%d" % min(len(c["calls"]), 8))
@@ -340,4 +407,11 @@ def targeted_search(rng, broken, mism_cases):
         if any(call[0] == "ior" for call in c["calls"]) and c["cls"] != "SQLLiteQuery":
             continue
         out.append(c)
+    fg = mr.FG(rng, hazards=0.0)
+    for _ in range(600):
+        c = fg.fork()
+        if c["cls"] in gn.JUDGED:
+            out.append(c)
+    for _ in range(300):
+        out.append(mr.corr_case(rng, fg, cls=rng.choice(gn.JUDGED)))
     return out
